@@ -94,6 +94,7 @@ func (router *Router) pushInbound(msg cemi.Message) {
 	case router.inbound <- msg:
 
 	default:
+		verifTrace("router-parked")
 		go func() {
 			// Since this goroutine decouples from the server goroutine, it might try to send when
 			// the server closed the inbound channel. Sending to a closed channel will panic. But we
